@@ -374,43 +374,56 @@ def ob_sweeps(ctx, res):
     if None in (s_inc, s_fl, z_inc, z_fl):
         res.fail("sweep/shape", pv, "sweep regions not recognised (increment loop / flush loop): summary %s/%s zoom %s/%s" % (s_inc, s_fl, z_inc, z_fl))
         return
-    # (a) depth-increment loops identical
-    zi_names = [fn_p[0] for fn_p in pz.params]
-    ta = up(strip(s_stmts[s_inc]["e"]))
-    tb = up(strip(z_stmts[z_inc]["e"]))
+    # (a) depth-increment loops: each sweep's loop is checked on its own, in normal form (comparisons oriented, pure temporaries inlined);
+    #     that the two are spelled alike is only recorded
+    from ..astq import upn
+    ta = upn(pv, strip(s_stmts[s_inc]["e"]))
+    tb = upn(pz, strip(z_stmts[z_inc]["e"]))
     if ta != tb:
-        res.fail("sweep/increment", strip(z_stmts[z_inc]["e"]), "depth-increment loops of the summary sweep and the zoom sweep differ")
-    else:
-        w = strip(s_stmts[s_inc]["e"])
-        t = up(w)
+        res.undecided("sweep/increment", strip(z_stmts[z_inc]["e"]), "depth-increment loops of the summary sweep and the zoom sweep are spelled differently (each is checked on its own below)")
+    for what_, fn_, w in (("summary", pv, strip(s_stmts[s_inc]["e"])), ("zoom", pz, strip(z_stmts[z_inc]["e"]))):
+        t = upn(fn_, w)
         need = [".value += 1.0", "insert_after(", "next_index("]
-        if not all(x in t for x in need) or not re.search(r"if (\w+) < (\w+)\.end \{let (\w+) = \2\.value - 1\.0; let (\w+) = \2\.end; \2\.end = \1;", t):
-            res.fail("sweep/increment-form", w, "increment loop must add 1 to every open segment and split the segment the item ends in (keeping the old depth after item_end)")
-        else:
-            res.ok(w, "depth increment: +1 on every open segment; the segment containing item_end is split with the old depth kept after it (both sweeps identical)")
+        if not all(x in t for x in need):
+            res.fail("sweep/increment-form", w, "%s sweep: increment loop must add 1 to every open segment and split the segment the item ends in (keeping the old depth after item_end)" % what_)
+            continue
+        arms = [a for a in walk_no_nested_fn(w["body"]) if a.k == "arm" and up(a["pat"]).startswith("Some(")]
+        ifl = [x for x in walk_no_nested_fn(w["body"]) if x.k == "if" and strip(x["cond"]).k == "let_expr" and up(strip(x["cond"])["pat"]).startswith("Some(")]
+        seg, st0 = None, None
+        if len(arms) == 1 and strip(arms[0]["body"]).k == "block":
+            seg, st0 = up(arms[0]["pat"])[5:-1].replace("mut ", ""), strip(arms[0]["body"])["stmts"]
+        elif not arms and len(ifl) == 1:
+            seg, st0 = up(strip(ifl[0]["cond"])["pat"])[5:-1].replace("mut ", ""), ifl[0]["then"]["stmts"]
+        if seg is None:
+            res.undecided("sweep/increment-form", w, "%s sweep: the per-segment step (`Some(segment) => ..`) was not recognised" % what_)
+            continue
+        # split of the segment the entry ends in: `if E < seg.end { keep the old depth after E; seg.end = E }`
+        splits = [x for x in walk_no_nested_fn(w["body"]) if x.k == "if" and re.fullmatch(r"(\w+) < %s\.end" % re.escape(seg), upn(fn_, x["cond"]))]
+        if len(splits) != 1:
+            res.fail("sweep/increment-form", w, "%s sweep: the segment the entry ends in must be split at the entry's end (`if item_end < segment.end { .. }`)" % what_)
+            continue
+        ie = re.fullmatch(r"(\w+) < %s\.end" % re.escape(seg), upn(fn_, splits[0]["cond"])).group(1)
+        sp_t = up(splits[0]["then"])
+        if not re.search(r"%s\.value - 1\.0" % re.escape(seg), sp_t) or not re.search(r"%s\.end = %s\b" % (re.escape(seg), re.escape(ie)), sp_t) or "insert_after(" not in sp_t:
+            res.fail("sweep/increment-form", splits[0], "%s sweep: the split must keep the old depth (value - 1.0) on the piece after the entry's end and cut the segment at it" % what_)
+            continue
+        res.ok(w, "%s sweep depth increment: +1 on every open segment; the segment containing item_end is split with the old depth kept after it" % what_)
         # the bump must stop at the first segment that lies entirely at/after the end of the entry: bumping it and splitting off an empty
         # piece [e,e) of depth+1 (which later entries starting at e keep bumping) puts depths into min/max that no base has
-        arms = [a for a in walk_no_nested_fn(w["body"]) if a.k == "arm" and up(a["pat"]).startswith("Some(")]
         okg = False
-        if len(arms) == 1 and strip(arms[0]["body"]).k == "block":
-            seg = up(arms[0]["pat"])[5:-1]
-            st0 = strip(arms[0]["body"])["stmts"]
-            inc_i = [i for i, x in enumerate(st0) if x.k == "expr_stmt" and _sqs(up(x)).startswith("%s.value+=1.0" % seg)]
-            for i, x in enumerate(st0):
-                if x.k == "expr_stmt" and strip(x["e"]).k == "if" and inc_i and i < inc_i[0]:
-                    c = _sqs(up(strip(x["e"])["cond"]))
-                    m_ = re.fullmatch(r"%s\.start>=(\w+)|(\w+)<=%s\.start" % (re.escape(seg), re.escape(seg)), c)
-                    if m_ and re.fullmatch(r"\{break;?\}", up(strip(x["e"])["then"])):
-                        ie = m_.group(1) or m_.group(2)
-                        if re.search(r"if %s < %s\.end" % (re.escape(ie), re.escape(seg)), t):
-                            okg = True
+        inc_i = [i for i, x in enumerate(st0) if x.k == "expr_stmt" and _sqs(up(x)).startswith("%s.value+=1.0" % seg)]
+        for i, x in enumerate(st0):
+            if x.k == "expr_stmt" and strip(x["e"]).k == "if" and inc_i and i < inc_i[0]:
+                c = upn(fn_, strip(x["e"])["cond"])
+                if c == "%s <= %s.start" % (ie, seg) and re.fullmatch(r"\{break;?\}", up(strip(x["e"])["then"])):
+                    okg = True
         if not okg:
             res.fail("sweep/increment-overrun", w,
-                     "the depth of a segment is bumped before it is known to start before the end of the entry: when an entry ends exactly on a segment boundary the NEXT "
+                     "%s sweep: the depth of a segment is bumped before it is known to start before the end of the entry: when an entry ends exactly on a segment boundary the NEXT "
                      "segment is bumped too and an empty piece [e,e) with depth+1 is split off; flushed with zero length it still enters min/max "
-                     "(entries 0-10, 0-5, 0-5, 5-10, 5-10: maximum depth 4 reported, every base has depth 3)")
+                     "(entries 0-10, 0-5, 0-5, 5-10, 5-10: maximum depth 4 reported, every base has depth 3)" % what_)
         else:
-            res.ok(w, "the bump stops at the first segment starting at or after the end of the entry")
+            res.ok(w, "%s sweep: the bump stops at the first segment starting at or after the end of the entry" % what_)
     # (b) tail extension by exhaustive cases
     for what, fn, stmts, lo, hi, names in (("summary", pv, s_stmts, s_inc, s_fl, (cnames[2], cnames[3], cnames[0])),
                                            ("zoom", pz, z_stmts, z_inc, z_fl, ("item_start", "item_end", "overlap"))):
@@ -435,16 +448,39 @@ def ob_sweeps(ctx, res):
                          "append nothing" if w_ is None else "append a depth-1 segment [last.end|item_start, item_end)"))
         else:
             res.ok(region[0], "%s sweep tail extension: empty list -> [item_start,item_end) depth 1; last.end < item_end -> [last.end,item_end) depth 1; else nothing (%d cases)" % (what, len(cases)))
-    # (c) flush loops: same condition and same split handling
-    fa, fb = strip(s_stmts[s_fl]["e"]), strip(z_stmts[z_fl]["e"])
-    if up(fa["cond"]) != up(fb["cond"]):
-        res.fail("sweep/flush-cond", fb, "flush conditions differ: `%s` vs `%s`" % (up(fa["cond"]), up(fb["cond"])))
-    else:
-        c = up(fa["cond"])
-        if not re.fullmatch(r"(\w+)\.get_first\(\)\.map\(\|(\w+)\| \2\.start < (\w+)\)\.unwrap_or\(false\)", c):
-            res.fail("sweep/flush-form", fa, "flush loop must run while the first open segment starts before the next entry's start; condition `%s`" % c)
+    # (c) flush loops run while the first open segment starts before the next entry's start: the condition of each sweep is evaluated
+    #     (first segment absent / starting before, at, after next_start)
+    from ..rules.interp import Interp
+    for what_, fn_, fl in (("summary", pv, strip(s_stmts[s_fl]["e"])), ("zoom", pz, strip(z_stmts[z_fl]["e"]))):
+        bad = None
+        for first in (None, 0, 1, 2):
+            def method(m, recv, args, first=first):
+                if m == "get_first" and recv == "OVERLAP" and not args:
+                    return None if first is None else ("some", {"__type": "Seg", "start": first, "end": first + 5, "value": ("f", 1.0)})
+                raise NotPure("method " + m)
+            env = {}
+            from ..astq import _tnorm
+            nf = strip(fl["cond"])
+            class _AnyEnv(dict):
+                def __contains__(self, k):
+                    return True
+                def __missing__(self, k):
+                    return 1 if "next" in k else "OVERLAP"
+            try:
+                got = Interp(ctx.ast, BW, extern={"None": None, "method": method}).ev(nf, _AnyEnv(), 0)
+            except NotPure as e:
+                bad = ("undecided", str(e))
+                break
+            want = first is not None and first < 1
+            if bool(got) != want:
+                bad = ("differs", "first open segment %s: condition is %s, required %s" % ("absent" if first is None else "starts at next_start%+d" % (first - 1), got, want))
+                break
+        if bad is None:
+            res.ok(fl, "%s sweep flush: segments starting before next_start are flushed (whole, or split at next_start)" % what_)
+        elif bad[0] == "undecided":
+            res.undecided("sweep/flush-form", fl, "%s sweep: flush condition `%s` not evaluated (%s)" % (what_, up(fl["cond"])[:80], bad[1]))
         else:
-            res.ok(fa, "flush: segments starting before next_start are flushed (whole, or split at next_start) in both sweeps")
+            res.fail("sweep/flush-form", fl, "%s sweep: the flush loop must run while the first open segment starts before the next entry's start; %s" % (what_, bad[1]))
     # segments without bases (from zero-length entries) must not reach the summary's min/max
     sw = strip(s_stmts[s_fl]["e"])
     lenlet = [x for x in walk_no_nested_fn(sw["body"]) if x.k == "let" and x["pat"].k == "p_tuple" and up(x["pat"]["elems"][0]) == "len"]
@@ -462,8 +498,11 @@ def ob_sweeps(ctx, res):
     # next_start default: u32::MAX when there is no next value
     for what, fn, stmts in (("summary", pv, s_stmts), ("zoom", pz, z_stmts)):
         ns = [st for st in stmts if st.k == "let" and up(st["pat"]) == "next_start"]
-        if len(ns) != 1 or "unwrap_or(u32::max_value())" not in up(ns[0]["init"]).replace("u32::MAX", "u32::max_value()"):
-            res.fail("sweep/%s/next_start" % what, fn, "next_start must default to u32::MAX at the end of the chromosome (flush everything)")
+        t_ns = up(ns[0]["init"]).replace("u32::max_value()", "u32::MAX") if len(ns) == 1 else ""
+        if len(ns) != 1:
+            res.undecided("sweep/%s/next_start" % what, fn, "`next_start` is not bound by one `let`")
+        elif "u32::MAX" not in t_ns:
+            res.fail("sweep/%s/next_start" % what, fn, "next_start must default to u32::MAX at the end of the chromosome (flush everything); it is `%s`" % t_ns[:80])
         else:
             res.ok(ns[0], "%s sweep: end of chromosome flushes every open segment" % what)
     # the summary sweep is called with (current.start, current.end, next.start)
